@@ -360,6 +360,72 @@ func runC04(r *core.Run) {
 			}
 		}
 	}
+	c04VGCopies(r, shapes, quick)
+}
+
+// c04VGCopies: the copy operations from NON-INITIAL view states - every slice/transpose view state of the view graph
+// (depth 2; depth 1 above 9 elements in the quick tier) is cloned, materialised, safely transposed and copied.
+func c04VGCopies(r *core.Run, shapes [][]int, quick bool) {
+	for _, d := range []ref.DT{ref.Float64, ref.Uint8} {
+		for _, shape := range shapes {
+			n := ref.Prod(shape)
+			if n > 27 {
+				continue
+			}
+			depth := 2
+			if n > 9 && quick {
+				depth = 1
+			}
+			for _, path := range atlas.ViewStates(shape, false, depth, true) {
+				if len(path) == 0 {
+					continue
+				}
+				if !r.Take() {
+					continue
+				}
+				if r.Expired() {
+					return
+				}
+				path := path
+				mk := func() *atlas.Built {
+					b, _ := atlas.Replay(d, shape, false, path)
+					if b == nil {
+						return nil
+					}
+					d.FillCodes(b.Root, 1)
+					b.Layout = "vg:" + atlas.PathString(path)
+					b.Vals = make([]interface{}, len(b.View.Cell))
+					for i, c := range b.View.Cell {
+						b.Vals[i] = ref.SliceGet(b.Root, c)
+					}
+					return b
+				}
+				tensor.VerifResetPools()
+				b0 := mk()
+				if b0 == nil {
+					r.Dim("skipped_states", "unbuildable")
+					continue
+				}
+				if cells, ok := b0.APCells(); !ok || !ref.EqInts(cells, b0.View.Cell) {
+					r.Dim("skipped_states", "access-pattern-differs-from-model(C02/C03)")
+					continue
+				}
+				r.State(atlas.StateKey(b0.T, atlas.RootPtr(b0.Root)))
+				for _, cop := range []string{"Clone", "Materialize", "SafeT", "Copy", "CopyTo"} {
+					cop := cop
+					id := fmt.Sprintf("C04|copy|%s|%s|vg:%s|%s", d.Name, shapeStr(shape), atlas.PathString(path), cop)
+					if r.ReplayCase != "" && id != r.ReplayCase {
+						continue
+					}
+					r.Dim("copy_op", cop)
+					r.Case(id, len(b0.View.Cell) > 1, func() *core.Fail {
+						tensor.VerifResetPools()
+						return c04CheckCopy(r, mk(), cop)
+					})
+				}
+			}
+		}
+	}
 }
 
 // probeDisjoint writes through cp and checks src's root is unchanged, then scribbles over src's root and checks cp's
